@@ -4,11 +4,14 @@
    Counts: W = ceil(u/64) words, nb = ceil(W/8) blocks, |block_rank_pairs| = 2 nb + 2,
    |select1_hints| <= ones/1024 + 1, |select0_hints| <= (512 nb - ones)/1024 + 1 (the zeros of
    the padding of the last block are counted by block_rank0), so both tables together have at
-   most nb/2 + 2 entries. *)
+   most nb/2 + 2 entries.
+   Second part: sums of that bound over the levels of a DAC (DacsByte / DacsOpt, flags without
+   hint tables) and over the layers of a WaveletMatrix<Rank9Sel>, for values of the stated shape
+   (`r9_plain`, `r9_full`); Proofs/SizeEF.v shows that the constructors build that shape. *)
 From Sucds Require Import Base.Res Spec.WordSpec Spec.BitSpec Spec.FormatSpec gen.SerialGen
-  Model.BitVector Model.Rank9 Model.Serial
+  Model.BitVector Model.Rank9 Model.CompactVector Model.Dacs Model.Wavelet Model.Serial
   Proofs.ResLemmas Proofs.BVAbs Proofs.BVReads Proofs.BVReads2 Proofs.R9Build Proofs.R9Rank
-  Proofs.R9Hints Proofs.R9Main Proofs.SizeForms Proofs.SizeBV.
+  Proofs.R9Hints Proofs.R9Main Proofs.CVRep Proofs.SizeForms Proofs.SizeBV.
 From Coq Require Import ZArith ZifyN ZifyBool ZifyNat Lia.
 Ltac Zify.zify_post_hook ::= Z.div_mod_to_equations.
 Open Scope N_scope.
@@ -125,6 +128,133 @@ Proof.
   apply size_rank9sel_bound, Hwf.
 Qed.
 
+(* ---------- levels of a DAC / layers of a wavelet matrix: sums of Rank9Sel bounds ---------- *)
+
+(* a Rank9Sel without hint tables over a well-formed bit vector (what Rank9Sel::new builds) *)
+Definition r9_plain (x : r9sel) : Prop := x = r9_spec (r9_bv x) false false /\ wf (r9_bv x).
+(* a Rank9Sel with both hint tables over a well-formed bit vector of n bits *)
+Definition r9_full (n : N) (x : r9sel) : Prop :=
+  x = r9_spec (r9_bv x) true true /\ wf (r9_bv x) /\ bv_len (r9_bv x) = n.
+
+Lemma r9_plain_bits x : r9_plain x -> 100 * (8 * sz_r9sel x) <= 132 * r9_num_bits x + 87900.
+Proof.
+  intros [E Hwf]. rewrite E. unfold r9_num_bits. cbn [r9_spec r9_bv].
+  pose proof (r9_bits_sharp (r9_bv x) false false Hwf). lia.
+Qed.
+
+Lemma r9_full_bits n x : r9_full n x -> 100 * (8 * sz_r9sel x) <= 132 * n + 87900.
+Proof.
+  intros [E [Hwf Hn]]. rewrite E. pose proof (r9_bits_sharp (r9_bv x) true true Hwf). lia.
+Qed.
+
+Lemma fold_left_add_sum {A} (h : A -> N) (l : list A) : forall a,
+  fold_left (fun acc x => acc + h x) l a = a + sumN h l.
+Proof.
+  induction l as [|x l IH]; intro a; cbn [fold_left]; [rewrite sumN_nil; lia|].
+  rewrite IH, sumN_cons. lia.
+Qed.
+
+Lemma fold_left_add_sum' {A} (f : N -> A -> N) (h : A -> N) :
+  (forall a x, f a x = a + h x) -> forall l a, fold_left f l a = a + sumN h l.
+Proof.
+  intros E l. induction l as [|x l IH]; intro a; cbn [fold_left]; [rewrite sumN_nil; lia|].
+  rewrite IH, E, sumN_cons. lia.
+Qed.
+
+(* the per-level accounting used by the driver: every level pays 1.32 (chunk + flag) + 2048 *)
+Section Levels.
+Context {A : Type}.
+Variables (chunk_bits : A -> N) (level_sz : A -> N).
+(* a stored level costs at most its chunk bits + 320 bits of headers and padding *)
+Hypothesis Hlevel : forall x, 8 * level_sz x <= chunk_bits x + 320.
+
+Definition level_cost (lv : A * option r9sel) : N :=
+  132 * (chunk_bits (fst lv) + match snd lv with Some f => r9_num_bits f | None => 0 end) + 204800.
+
+Lemma levels_bound : forall (data : list A) (flags : list r9sel),
+  Forall r9_plain flags -> length data = S (length flags) ->
+  100 * (8 * (sumN level_sz data + sumN sz_r9sel flags))
+  <= sumN level_cost (combine data (map Some flags ++ [None])).
+Proof.
+  induction data as [|x data IH]; intros flags Hf Hlen; [discriminate|].
+  destruct flags as [|f flags].
+  - destruct data; [|discriminate]. cbn [map app combine]. rewrite !sumN_cons, !sumN_nil.
+    unfold level_cost. cbn [fst snd]. pose proof (Hlevel x). lia.
+  - inversion Hf as [|f' fl' Hf1 Hf2]; subst. cbn [length] in Hlen.
+    cbn [map app combine]. rewrite !sumN_cons.
+    specialize (IH flags Hf2 ltac:(lia)). pose proof (r9_plain_bits f Hf1) as Hb.
+    unfold level_cost at 1. cbn [fst snd]. pose proof (Hlevel x). lia.
+Qed.
+End Levels.
+
+(* DacsByte: the driver's inequality *)
+Theorem size_dacsbyte_levels d :
+  Forall r9_plain (db_flags d) -> length (db_data d) = S (length (db_flags d)) ->
+  let levels := combine (db_data d) (map Some (db_flags d) ++ [None]) in
+  let tot := fold_left (fun acc (lv : list N * option r9sel) =>
+               let chunk := 8 * lenN (fst lv) in
+               let flag := match snd lv with Some f => r9_num_bits f | None => 0 end in
+               acc + 132 * (chunk + flag) + 204800) levels 0 in
+  100 * (8 * size ty_DacsByte (v_dacsbyte d)) <= tot + 12800.
+Proof.
+  intros Hf Hlen levels tot. rewrite size_dacsbyte. unfold sz_dacsbyte.
+  pose proof (levels_bound (fun l : list N => 8 * lenN l) (fun l => 8 + lenN l) ltac:(intro x; cbv beta; lia)
+                (db_data d) (db_flags d) Hf Hlen) as H.
+  fold levels in H.
+  assert (Et : tot = sumN (level_cost (fun l : list N => 8 * lenN l)) levels).
+  { unfold tot.
+    rewrite (fold_left_add_sum' _ (level_cost (fun l : list N => 8 * lenN l))); [lia|].
+    intros a0 lv. unfold level_cost. lia. }
+  rewrite Et. lia.
+Qed.
+
+(* DacsOpt: the driver's inequality *)
+Theorem size_dacsopt_levels d :
+  Forall (fun v => exists xs, cv_inv v xs) (do_data d) ->
+  Forall r9_plain (do_flags d) -> length (do_data d) = S (length (do_flags d)) ->
+  let levels := combine (do_data d) (map Some (do_flags d) ++ [None]) in
+  let tot := fold_left (fun acc (lv : compvec * option r9sel) =>
+               let chunk := cv_len (fst lv) * cv_width (fst lv) in
+               let flag := match snd lv with Some f => r9_num_bits f | None => 0 end in
+               acc + 132 * (chunk + flag) + 204800) levels 0 in
+  100 * (8 * size ty_DacsOpt (v_dacsopt d)) <= tot + 12800.
+Proof.
+  intros Hd Hf Hlen levels tot. rewrite size_dacsopt. unfold sz_dacsopt.
+  (* replace the level size by one that satisfies the header bound everywhere *)
+  set (lsz := fun v : compvec => N.min (sz_compvec v) ((cv_len v * cv_width v + 320) / 8)).
+  assert (Es : sumN sz_compvec (do_data d) = sumN lsz (do_data d)).
+  { apply sumN_ext. intros v Hv. rewrite Forall_forall in Hd. destruct (Hd v Hv) as [xs Hx].
+    pose proof (compvec_bits_exact v xs Hx) as He. pose proof (round64_lt (cv_len v * cv_width v)).
+    unfold lsz. set (p := cv_len v * cv_width v) in *. lia. }
+  rewrite Es.
+  pose proof (levels_bound (fun v : compvec => cv_len v * cv_width v) lsz
+                ltac:(intro v; unfold lsz; cbv beta; set (p := cv_len v * cv_width v); lia)
+                (do_data d) (do_flags d) Hf Hlen) as H.
+  fold levels in H.
+  assert (Et : tot = sumN (level_cost (fun v : compvec => cv_len v * cv_width v)) levels).
+  { unfold tot.
+    rewrite (fold_left_add_sum' _ (level_cost (fun v : compvec => cv_len v * cv_width v))); [lia|].
+    intros a0 lv. unfold level_cost. set (p := cv_len (fst lv) * cv_width (fst lv)). lia. }
+  rewrite Et. lia.
+Qed.
+
+(* WaveletMatrix<Rank9Sel> over n symbols: B <= width (1.32 n + 2048) + 128 *)
+Theorem size_wavelet_r9_layers (layers : list r9sel) (a n : N) :
+  Forall (r9_full n) layers ->
+  100 * (8 * size ty_WaveletMatrix_Rank9Sel
+               (v_wavelet {| wm_layers := map BRank9 layers; wm_alph_size := a |}))
+  <= lenN layers * (132 * n + 204800) + 12800.
+Proof.
+  intro H. rewrite size_wavelet_r9.
+  assert (Hs : 100 * (8 * sumN sz_r9sel layers) <= lenN layers * (132 * n + 87900)).
+  { induction H as [|x l Hx Hl IH]; [rewrite sumN_nil; unfold lenN; cbn [length]; lia|].
+    rewrite sumN_cons, lenN_cons. pose proof (r9_full_bits n x Hx). lia. }
+  lia.
+Qed.
+
 Print Assumptions size_rank9sel_bound.
 Print Assumptions size_rank9sel_built.
 Print Assumptions r9_base_bits.
+Print Assumptions size_dacsbyte_levels.
+Print Assumptions size_dacsopt_levels.
+Print Assumptions size_wavelet_r9_layers.
